@@ -382,6 +382,15 @@ impl Gen {
             // unusual but accepted configuration: the base denomination is also listed as convertible
             convs.push(BASE.to_string());
         }
+        // a denomination listed twice (legal: nothing validates the lists)
+        if self.rng.pct(5) && !quotes.is_empty() {
+            let q = quotes[0].clone();
+            quotes.push(q);
+        }
+        if self.rng.pct(5) && !convs.is_empty() {
+            let c = convs[0].clone();
+            convs.insert(0, c);
+        }
         let (afr, afa) = if self.rng.pct(50) {
             (None, None)
         } else {
